@@ -434,6 +434,7 @@ func (s *impStack) script(run *impRun, logs []ledger.Log) *impRun {
 	imported := false
 	pristineFull := false // B = result of exactly one full import into the pristine ledger (then only writes)
 	maxLog, maxTx := int64(0), int64(0)
+	diverged := false
 	for _, a := range c.Script {
 		switch a.Kind {
 		case "import":
@@ -512,11 +513,21 @@ func (s *impStack) script(run *impRun, logs []ledger.Log) *impRun {
 			}
 			if pristineFull {
 				// C11 writability: the same request on the source gives the same answers; ids continue above the imported ones
-				_, onA := s.write(s.a, a.Path, a.Now, a.Ops)
-				for i := range shapes {
-					if i < len(onA) && shapes[i].Class != onA[i].Class {
-						run.Viol = append(run.Viol, fmt.Sprintf("C11|post-import write through the %s path: element %d gives %s on the copy, %s on the source: [c11-write-%s]", a.Path, i, shapes[i].Class, onA[i].Class, a.Path))
-						break
+				if !diverged {
+					_, onA := s.write(s.a, a.Path, a.Now, a.Ops)
+					for i := range shapes {
+						if i >= len(onA) {
+							break
+						}
+						if shapes[i].Class != onA[i].Class {
+							run.Viol = append(run.Viol, fmt.Sprintf("C11|post-import write through the %s path: element %d gives %s on the copy, %s on the source: [c11-write-%s]", a.Path, i, shapes[i].Class, onA[i].Class, a.Path))
+							diverged = true
+							break
+						}
+						if shapes[i].LogID != onA[i].LogID || shapes[i].TxID != onA[i].TxID {
+							diverged = true // e.g. ids drawn by a dry run are reused on the copy (resync at every write while initializing): no violation, but the two ledgers are no longer comparable
+							break
+						}
 					}
 				}
 				for i, w := range shapes {
@@ -755,10 +766,14 @@ func genScript(r *Rng, src []Op) []impAction {
 		sc = append(sc, write(Pick(r, paths)))
 	case k < 90: // import, write, import again
 		sc = append(sc, imp(0, -1), write(Pick(r, paths)), imp(0, -1))
-	case k < 95: // a suffix only
+	case k < 93: // a suffix only
 		sc = append(sc, imp(split, -1), write(Pick(r, paths)))
 	default: // atomic bulk on the pristine ledger, then the rest of the stream
-		sc = append(sc, write("atomic"), imp(Pick(r, []int{0, 1, 1, 2}), -1), write(Pick(r, paths)))
+		w := write("atomic")
+		if r.Chance(70) { // a bulk that certainly commits: one funded posting
+			w.Ops = []Op{{Kind: "create", Post: []Posting{{"world", Pick(r, genAccounts[1:]), "USD", big.NewInt(int64(1 + r.Intn(50)))}}, Now: w.Now}}
+		}
+		sc = append(sc, w, imp(Pick(r, []int{0, 1, 1, 1, 2}), -1), write(Pick(r, paths)))
 	}
 	return sc
 }
